@@ -173,17 +173,19 @@ func main() {
 		c.Nontrivial("replay")
 		c.Nontrivial("replay-")
 	}
+	runScoreboardLayer(c, replay)
 	if !replay {
 		opts.MinNontrivial = c.N(40, 1000)
 		opts.MinCounters = map[string]int64{
-			"barrier_generations":                   200,
-			"barrier_generations_late_100":          30,
-			"waitcnt_had_to_stall":                  200,
-			"waitcnt_nonzero_outstanding_at_issue":  200,
-			"endpgm_issued_with_memory_outstanding": 50,
-			"wg_results_checked_at_completion":      100,
-			"early_exit_cases":                      60,
-			"early_exit_cases_completed":            60,
+			"barrier_generations": 200,
+			"scoreboard_reads_of_registers_with_a_write_in_flight": int64(c.N(5000, 200000)),
+			"barrier_generations_late_100":                         30,
+			"waitcnt_had_to_stall":                                 200,
+			"waitcnt_nonzero_outstanding_at_issue":                 200,
+			"endpgm_issued_with_memory_outstanding":                50,
+			"wg_results_checked_at_completion":                     100,
+			"early_exit_cases":                                     60,
+			"early_exit_cases_completed":                           60,
 			// early exits in every order relative to the others' arrival at the barrier (counted from the trace)
 			"work_groups_with_2_or_more_early_exits":                                                           80,
 			"work_groups_with_2_or_more_early_exits_after_the_staying_wavefronts_parked":                       60,
